@@ -89,7 +89,7 @@ def replay_known(ctx, pid, profiles):
 
 
 def run(ctx, pid, props_file, profiles, variants, n_quick, n_thorough, assumptions, text_rule,
-        repeats=1, extra=None, obligations_note=''):
+        repeats=1, extra=None, obligations_note='', pre=None):
     """profiles: list of (profile, weight).  variants: list of variant names to judge."""
     C.prepare(ctx, props_file)
     cells = load_domains()
@@ -102,6 +102,10 @@ def run(ctx, pid, props_file, profiles, variants, n_quick, n_thorough, assumptio
     samples = []
     evaluations = 0
     nontrivial = set()
+    pre_cov = {}
+    if ctx.harness_ok and pre is not None:
+        pre_found, pre_cov = pre(ctx)
+        found = found or pre_found
     if ctx.harness_ok:
         kf = replay_known(ctx, pid, [p for p, _ in profiles])
         progs = []
@@ -183,5 +187,7 @@ def run(ctx, pid, props_file, profiles, variants, n_quick, n_thorough, assumptio
         'theorems': sum([C.theorem_names(C.COQ + '/theories/Props/%s.v' % pf) for pf in (props_file if isinstance(props_file, (list, tuple)) else [props_file])], []),
         'obligations_note': obligations_note,
     }
+    cov.update(pre_cov)
+    cov['evaluations'] += pre_cov.get('component_evaluations', 0)
     return C.finish(ctx, 'proof', cov, assumptions,
                     'make -C /verif/coq ' + ' '.join('theories/Props/%s.vo' % pf for pf in (props_file if isinstance(props_file, (list, tuple)) else [props_file])) + ' (coqc 8.16.1)')
